@@ -501,6 +501,8 @@ func (g *Gen) Next() Op {
 			n = -1 // fill up to the maximum
 		}
 		return Op{K: KRegistry, M: m, N: n}
+	case KBigBatch:
+		return Op{K: KBigBatch, N: g.R.Intn(1000), E: g.R.Intn(1000)}
 	case KMatrix:
 		return Op{K: KMatrix, E: g.R.Intn(1000)}
 	case KQMisuse:
